@@ -4,6 +4,7 @@ import Rcgen.Model.Pem
 import Rcgen.Spec.Pem
 import Rcgen.Model.CsrParse
 import Rcgen.Model.Keys
+import Rcgen.Model.Cli
 /- line-protocol driver: one request per line, one response per line -/
 namespace Driver
 open Rcgen Rcgen.Model Sexp
@@ -221,6 +222,29 @@ def handle (op : String) (args : List Sexp) : R Sexp := do
     match spkiAlgLookup b (← der.asBytes) with
     | some a => pure (.list [.atom "ok", .atom (algName a)])
     | none => pure (.list [.atom "err", .atom "UnsupportedSignatureAlgorithm"])
+  | "classify-san", [t] => do
+    match classifySan (← t.asBytes) with
+    | .ok s => pure (.list [.atom "ok", encSan s])
+    | .error e => pure (.list [.atom "err", .atom (errName e)])
+  | "cli", [aws, o] => do
+    match ← o.tagged with
+    | ("opts", fs) =>
+      let alg ← match ← (← field1 "alg" fs).asAtom with
+        | "rsa" => pure CliAlg.rsa | "ed25519" => pure CliAlg.ed25519 | "p256" => pure CliAlg.p256
+        | "p384" => pure CliAlg.p384 | "p521" => pure CliAlg.p521 | s => throw s!"bad cli alg {s}"
+      let opts : CliOptions := {
+        output := ← (← field1 "out" fs).asBytes, alg := alg,
+        clientAuth := ← (← field1 "client" fs).asBool, serverAuth := ← (← field1 "server" fs).asBool,
+        certFileName := ← (← field1 "cert" fs).asBytes, caFileName := ← (← field1 "ca" fs).asBytes,
+        sans := ← (← field "san" fs).mapM Sexp.asBytes,
+        commonName := ← (← field1 "cn" fs).asBytes, countryName := ← (← field1 "country" fs).asBytes,
+        organizationName := ← (← field1 "org" fs).asBytes }
+      match cliRun (← aws.asBool) opts with
+      | .ok plan => pure (.list [.atom "ok", .list [.atom "ca", encParams plan.ca],
+          .list [.atom "ee", encParams plan.ee], .atom (algName plan.alg),
+          .list (.atom "files" :: plan.files.map ofBytes)])
+      | .error e => pure (.list [.atom "err", .atom (errName e)])
+    | (t, _) => throw s!"bad opts {t}"
   | "spki", [k] => do pure (ofBytes (spkiDer (← decKey k)))
   | "sha", [k, b] => do
     let b ← b.asBytes
